@@ -9,7 +9,7 @@ for l in open("/verif/properties.jsonl"):
     if p["id"] == pid:
         break
 wt = "/tmp/seed/%s%s" % (pid, suffix)
-print(f"""You are testing how robust a codebase's safety net is. You get a scratch git worktree of the repository gmsol-labs/gmx-solana (GMX perpetuals/liquidity exchange ported to Solana: Anchor programs, a pure-Rust market model, SDK) at {wt} — work ONLY inside that directory (never touch /repo or /verif, do not read /verif). The sandbox is offline (use `cargo ... --offline`); the workspace builds.
+print(f"""You are testing how robust a codebase's safety net is. You get a scratch git worktree of the repository gmsol-labs/gmx-solana (GMX perpetuals/liquidity exchange ported to Solana: Anchor on-chain programs (store, treasury, timelock, ...), a pure-Rust market math model, SDK and CLI) at {wt} — work ONLY inside that directory (never touch /repo or /verif, do not read anything under /verif). The sandbox is offline (use `cargo ... --offline`); the workspace builds. IMPORTANT: run `export CARGO_TARGET_DIR={wt}/target` before any cargo command, and scope builds/tests to the crates you touch (`-p <crate>`), the machine is shared and busy.
 
 Here is a semantic property that should hold for this codebase:
 
@@ -19,12 +19,12 @@ Here is a semantic property that should hold for this codebase:
   holds for: {p['quantifier']['text']}
   code it is anchored in: {', '.join(p['anchors']['files'])}
 
-YOUR TASK: write ONE realistic change to the repository's source (the kind of slip a maintainer could make in a refactor, optimisation or feature addition: 1–15 changed lines, plausible, not sabotage-looking) that BREAKS this property while the code still compiles and the repository's existing test suite still passes (at minimum run the tests of every crate you touched and those depending on it for the touched code, e.g. `cargo test --offline -p <crate>`; warnings are fine). Prefer a change that needs something specific to manifest — a particular input class (type-limit values, zero, exact-fit sizes), a multi-step sequence of operations, a particular ordering, two cooperating sites that each look fine alone — NOT one that ordinary use or the existing tests would expose at once. Do not touch tests, do not add cfg flags, do not change public signatures.
+YOUR TASK: write TWO independent realistic changes (call them a and b; each a separate patch against the clean tree, different in kind) to the repository's source — the kind of slip a maintainer could make in a refactor, optimisation or feature addition: 1–15 changed lines, plausible, not sabotage-looking — that each BREAK this property while the code still compiles and the repository's existing test suite still passes (run at least the tests of every crate you touched, e.g. `cargo test --offline -p <crate>` with the features its dev-dependencies enable; warnings are fine). Prefer changes that need something specific to manifest — a particular input class (type-limit values, zero, exact-fit sizes, one side / one token only), a multi-step sequence of operations, a particular ordering or timing, an unusual configuration, two cooperating sites that each look fine alone — NOT ones that ordinary use or the existing tests would expose at once. Do not touch tests, do not add cfg flags, do not change public signatures.
 
-Then write a DEMONSTRATION: a small Rust test or program (put it in a new file, e.g. a new `tests/seed_demo.rs` integration test in the touched crate or a `#[cfg(test)] mod` appended to a NEW file) that FAILS with your change and PASSES without it. Verify both directions yourself (`git stash` / `git stash pop` or apply/revert the patch).
+Then for each write a DEMONSTRATION: a small Rust test in a NEW file (e.g. `<crate>/tests/seed_demo_a.rs`, or a new `#[cfg(test)]` module file if private items are needed) that FAILS with the change and PASSES without it. Verify both directions yourself.
 
-Deliver, inside {wt}/_seed/ :
-  patch.diff   — `git diff` of the source change ONLY (not the demonstration), applicable with `git apply` at the repo root;
+Deliver, inside {wt}/_seed/a/ and {wt}/_seed/b/ :
+  patch.diff   — `git diff` of the source change ONLY (not the demonstration), applicable with `git apply` at the repo root of a clean tree;
   demo.diff    — the diff adding the demonstration (separately applicable);
   meta.json    — {{"property": "{p['id']}", "summary": "...what the change does...", "needs": "...what is needed for it to manifest...", "files": [...], "tests_run": ["commands you ran and their result"], "demo_cmd": "command that runs the demonstration"}}
-Leave the worktree with both diffs applied. Your final message: 5 lines summarising the change, what it needs to manifest, and the demo command.""")
+Leave the worktree clean of source changes at the end (the _seed directory stays). Your final message: for each of a and b, 3 lines summarising the change, what it needs to manifest, and the demo command.""")
